@@ -49,6 +49,9 @@ CHECKS = {
  "C17": ("exploration", "exhaustive operation-sequence enumeration against an overlay-map reference model on every backend",
          "Every operation sequence over a 9-operation alphabet up to length 5 (quick) / 7 (thorough) is executed on MemDB, CacheDB over MemDB/CacheDB/Bolt and BoltChainDB, comparing Get of every key and a full Iter after each operation and the durable image at the end with the model; plus long PRNG sequences. Exhaustive within the stated bound, sampled beyond it.",
          "Trusts bbolt's transaction semantics; bucket handles are re-fetched per operation as DBStore does; keys and values non-empty.", "§3 C17"),
+ "C18": ("exploration", "concurrency-limit and shutdown monitoring with blocking proxies, goroutine inventory and the race detector",
+         "Attacker peers on core/gateway fire RPC bursts from 1-5 peers over 73 limit configurations while a blocking ChainManager proxy parks handlers: observed concurrency never exceeds the per-peer/per-subnet limits, no request is dropped while the subnet budget holds (back-pressure), slots are returned after every kind of handler ending, inbound/outbound caps hold under 4-64 simultaneous delayed handshakes; Close/Stop of Syncer, rhp.Server (siamux), wallet and ThreadGroup at PRNG moments must return within 30 s, only after every handler finished, leave no coreutils goroutine behind and reject later work; ThreadGroup storms; -race is deciding.",
+         "Bounded-liveness restatement (30 s, unchanged tree: milliseconds); loopback networking; QUIC and IPv6 prefixes not exercised; known finding KF-C18-1.", "§3 C18"),
  "C19": ("exploration", "differential monitoring: pruned node vs unpruned twin vs pure oracle",
          "Generated histories are fed to a pruned node and an unpruned twin; after PruneBlocks(h) for h in {0,1,mid,PRNG,tip,tip+1,tip+2,tip+5} (repeated) exactly the best-chain bodies below h must be absent and every other stored body present, index/states must equal the pure replay, MinReorgIndex must be the lowest block with all bodies above present, History/Headers must equal the twin's; heavier forks with fork point above/at/below MinReorgIndex (at/above must be adopted with pure states, below may be refused with an error and unchanged view); requests needing pruned bodies must error without panic; the pruned store is reopened from its durable image.",
          "After the pruned node legitimately refused a fork the twin adopted, it is compared with the pure oracle only.", "§3 C19"),
